@@ -69,3 +69,13 @@ package block
 //@ opt frame off
 //@ opt alloc-bound 65535
 //@ loop 0 invariant io.validR(br)
+
+// (C17) identity depends only on content: every transaction of a block read from JSON goes through
+// the checking decoder (hash and size recomputed from the content, validity checked), never the
+// variant that takes the "hash" and "size" members of the JSON on trust.
+//@ func (*Block).UnmarshalJSON
+//@ may-panic
+//@ opt frame off
+//@ requires b != nil
+//@ ensures[checked] ncalls("UnmarshalJSONUnsafe") == 0
+//@ loop 0 invariant[checked] ncalls("UnmarshalJSONUnsafe") == 0
